@@ -163,6 +163,11 @@ def run(ctx) -> None:
     # ---- R7 ---------------------------------------------------------------------
     check_no_broadcast_defaults(ctx, "C18.R7")
     check_skip_by_resolver_class(ctx, "C18.R1")
+    # an object a user function returned is the user's: the run does not write into it (a handler's dict answer is
+    # copied before the signal names are added)
+    from .c14 import check_handler_dict_translated
+
+    check_handler_dict_translated(ctx, None, "C18.R2")
 
     # ---- R8 ---------------------------------------------------------------------
     from sa.effects import fmt_effect
